@@ -55,8 +55,8 @@ package ontology
 //@ spec func specRev(r Relationship) Relationship = Relationship{From: r.To, To: r.From, Type: r.Type}
 
 //@ # table lookups (gorp retrieves by exact key), assumed
-//@ trusted func (d dagWriter) checkRelationshipExists(ctx context.Context, rel Relationship) (exists bool, err error)
-//@   ensures err == nil ==> exists == SpecEdges[rel] && !SpecEdges[specRev(rel)]
+//@ trusted func (d dagWriter) checkRelationshipExists(ctx context.Context, rel Relationship) (found bool, err error)
+//@   ensures err == nil ==> found == SpecEdges[rel] && !SpecEdges[specRev(rel)]
 //@   ensures SpecEdges[specRev(rel)] ==> err != nil
 //@   modifies nothing
 //@ trusted func (d dagWriter) validateResourcesExist(ctx context.Context, ids ...ID) (err error)
